@@ -3,7 +3,6 @@ package props
 import (
 	"encoding/json"
 	"fmt"
-	"math"
 	"math/big"
 	"regexp"
 	"sort"
@@ -484,7 +483,164 @@ func codecCheck(c *Ctx, prop string) error {
 			cc.decodeCheck("roundtrip", o["rt_err"], nil, o["rt"], d["impl_rt"], false)
 		}
 	}
+	if prop == "C05" && douts != nil {
+		idx := map[*codecCase]int{}
+		for i, k := range all {
+			idx[k] = i
+		}
+		if err := serveExchangeCheck(c, all, func(k *codecCase) (map[string]any, map[string]any) { return outs[k], douts[idx[k]] }); err != nil {
+			return err
+		}
+	}
 	res.Programs = len(items)
+	return nil
+}
+
+// serveContentTypes are the request Content-Types of the real HTTP exchanges: marshalResponse picks
+// the RESPONSE codec from the request's Content-Type (regenerated table Gen.Pipeline.marshalResponseTable).
+var serveContentTypes = []struct{ name, ct string }{
+	{"json", "application/json"}, {"json_charset", "application/json; charset=utf-8"}, {"absent", ""},
+	{"text_plain", "text/plain;charset=UTF-8"}, {"form", "application/x-www-form-urlencoded"}, {"garbage", "garbage"},
+}
+
+// serveExchangeCheck sends, for a sample of (type, value) cases whose type is the OUTPUT of an RPC,
+// real HTTP requests through the emitted server (handler returns the value) under several request
+// Content-Types, and compares the response body with the encoder's output observed by the `enc`
+// op / the Impl encoding (correspondence: the Lean model of the content-type -> codec table says
+// JSON through the message's own MarshalJSON for all of them) and with the documented mapping
+// (oracle).
+func serveExchangeCheck(c *Ctx, all []*codecCase, obs func(*codecCase) (map[string]any, map[string]any)) error {
+	res := c.Res
+	var cops []map[string]any
+	for _, ct := range serveContentTypes {
+		cops = append(cops, map[string]any{"op": "resp_codec", "ct": ct.ct})
+	}
+	codecs, err := drv.Run(cops)
+	if err != nil || len(codecs) != len(serveContentTypes) {
+		res.Corr("driver", fmt.Sprintf("Lean driver failed on resp_codec: %v", err), nil)
+		return nil
+	}
+	perType := c.N(2, 5)
+	type exch struct {
+		k   *codecCase
+		ct  int
+		op  map[string]any
+		out map[string]any
+	}
+	var xs []*exch
+	seen := map[string]int{}
+	outputOf := map[*rtItem]map[string]*methodInfo{}
+	for _, k := range all {
+		mm, ok := outputOf[k.x]
+		if !ok {
+			mm = map[string]*methodInfo{}
+			for _, mi := range k.x.methods() {
+				if _, dup := mm[mi.m.Output]; !dup && mi.verb == "POST" && len(mi.pathVars) == 0 {
+					mm[mi.m.Output] = mi
+				}
+			}
+			outputOf[k.x] = mm
+		}
+		mi := mm[k.full]
+		if mi == nil {
+			continue
+		}
+		o, d := obs(k)
+		if d == nil || o == nil || o["json"] == nil {
+			continue // the encoder failed (or no model): nothing to compare a body with
+		}
+		if e, _ := o["err"].(string); e != "" {
+			continue
+		}
+		populated := false
+		k.val.Range(func(protoreflect.FieldDescriptor, protoreflect.Value) bool { populated = true; return false })
+		key := k.x.it.ID + "|" + k.full
+		if !populated || seen[key] >= perType {
+			continue
+		}
+		seen[key]++
+		for ci, ct := range serveContentTypes {
+			op := serveOpFor(k.x, mi, gen.PJ(k.val))
+			if ct.ct == "" {
+				op["headers"] = [][2]string{}
+			} else {
+				op["headers"] = [][2]string{{"Content-Type", ct.ct}}
+			}
+			xs = append(xs, &exch{k: k, ct: ci, op: op})
+		}
+	}
+	byItem := map[*rtItem][]*exch{}
+	var its []*rtItem
+	for _, x := range xs {
+		if _, ok := byItem[x.k.x]; !ok {
+			its = append(its, x.k.x)
+		}
+		byItem[x.k.x] = append(byItem[x.k.x], x)
+	}
+	var mu sync.Mutex
+	var runErr error
+	parallel(len(its), func(i int) {
+		var ops []any
+		for _, x := range byItem[its[i]] {
+			ops = append(ops, x.op)
+		}
+		o, err := runItem(its[i], ops)
+		mu.Lock()
+		defer mu.Unlock()
+		if err != nil {
+			runErr = err
+			return
+		}
+		for j, x := range byItem[its[i]] {
+			x.out = o[j]
+		}
+	})
+	if runErr != nil {
+		return runErr
+	}
+	for _, x := range xs {
+		k, ct := x.k, serveContentTypes[x.ct]
+		o, d := obs(k)
+		res.Count("serve_exchange:" + ct.name)
+		replay := map[string]any{"schema": k.x.req, "type": k.full, "value": jsonRaw(gen.PJ(k.val)), "request_content_type": ct.ct, "serve": x.out, "enc": o,
+			"model": map[string]any{"spec": d["spec"], "impl": d["impl"], "codec": codecs[x.ct]}}
+		if fault, _ := x.out["fault"].(string); fault != "" {
+			res.Violation("fault", fmt.Sprintf("%s: the server panics on a request with Content-Type %q: %s", k.name, ct.ct, fault), replay)
+			continue
+		}
+		codec, _ := codecs[x.ct]["codec"].(string)
+		status, _ := x.out["status"].(json.Number)
+		respCT, _ := x.out["ct"].(string)
+		isJSON := status.String() == "200" && x.out["body_json"] != nil && strings.HasPrefix(respCT, "application/json")
+		if !isJSON {
+			if codec == "json" {
+				res.Corr("serve_status:"+ct.name, fmt.Sprintf("%s: request Content-Type %q: the model predicts a 200 JSON response, the server answered %s (%s)", k.name, ct.ct, status, clip(respCT, 60)), replay)
+			}
+			continue // a binary response: not this check's matter
+		}
+		bodyJ := normJSON(x.out["body_json"])
+		implAgrees := false
+		if codec != "json" {
+			// the regenerated content-type table (Gen.Pipeline.marshalResponseTable / Default) has no JSON entry for it
+			res.Corr("serve_codec:"+ct.name, fmt.Sprintf("%s: request Content-Type %q: the server answers JSON, the model's response-codec table says %q", k.name, ct.ct, codec), replay)
+		} else {
+			implJ := normJSON(d["impl"])
+			if custom, _ := codecs[x.ct]["custom_marshaler"].(bool); !custom {
+				implJ = normJSON(d["pj"])
+			}
+			if implAgrees = firstDiff(bodyJ, implJ, "") == ""; implAgrees {
+				res.CorrAgree()
+			} else {
+				res.Corr("serve_body:"+ct.name, fmt.Sprintf("%s: request Content-Type %q: the response body differs from the Impl encoding at %s", k.name, ct.ct, firstDiff(bodyJ, implJ, "")), replay)
+			}
+		}
+		if dEnc := firstDiff(bodyJ, normJSON(o["json"]), ""); dEnc != "" {
+			// the body is not what the message's encoder (as the `enc` op picks it) produces: judge it against the documented mapping itself
+			if dSpec := firstDiff(bodyJ, normJSON(d["spec"]), ""); dSpec != "" {
+				res.Divergence("mapping:response_codec:"+ct.name, fmt.Sprintf("%s: request Content-Type %q: the HTTP response body differs from the documented mapping at %s (and from the message's own encoder output at %s)", k.name, ct.ct, dSpec, dEnc), implAgrees, replay)
+			}
+		}
+	}
 	return nil
 }
 
